@@ -10,11 +10,14 @@ Producer: harness/legacy_common.py.
 grid ops (agents are 0..NAGENTS-1; `:` introduces the script of raw random draws)
   place a x y | remove a | move a x y | swap a b | mte a : r… |
   mto a random|closest|other none|warning|error K x1 y1 … xK yK : r…
-  empties | exists | isempty x y | mask | agents | iter | get x y | dump
+  empties | exists | isempty x y (any ints: Python indexing) | mask | agents | iter | get x y | dump
+  geti x (grid[x]) | getl K x1 y1 … (grid[(x1,y1),…]) | gets IX IY (grid[ix, iy]; IX/IY = I<int> or S<start>/<stop>/<step>, _ = None)
+  tadj x y (torus_adj) | oob x y (out_of_bounds)
+  foreign a x y   (outside the quantifier: another grid of the same shape places the unplaced agent a, i.e. writes its pos)
   nbhd|inbhd x y MOORE IC R | nbrs|inbrs x y MOORE IC R | nmask x y MOORE IC R | clc|iclc K x1 y1 …
   hnbhd|ihnbhd x y IC R | hnbrs|ihnbrs x y IC R
-net ops
-  nplace a v | nremove a | nmove a v | nnbhd v IC R | nnbrs v IC R | nclc K v1 … | nagents | nisempty v | ndump
+net ops (node ids are naturals; a node id ≥ N does not exist)
+  nplace a v | nremove a | nmove a v | nnbhd v IC R | nnbrs v IC R | nclc|niclc K v1 … | nallc | nagents | nisempty v | ndump
 -/
 open Mesa.Legacy
 
@@ -23,6 +26,7 @@ def words (s : String) : List String := (s.splitOn " ").filter (· ≠ "")
 def fmtErr : Err → String
   | .full => "err Full" | .oob => "err OutOfBounds" | .type => "err Type" | .value => "err Value"
   | .noPos => "err NoPos" | .noEmpty => "err NoEmpty" | .script => "err Script" | .key => "err Key"
+  | .index => "err Index" | .noNode => "err NoNode"
 
 def fmtRes : Res → String
   | .ok => "ok"
@@ -55,6 +59,17 @@ def splitScript (ws : List String) : Option (List String × List String) :=
   | (a, _ :: b) => some (a, b)
   | _ => none
 
+def optInt? (s : String) : Option (Option Int) := if s = "_" then some none else s.toInt?.map some
+
+/-- `I<int>` or `S<start>/<stop>/<step>` -/
+def ix? (s : String) : Option Grid.Ix :=
+  if s.startsWith "I" then (s.drop 1).toString.toInt?.map Grid.Ix.int
+  else if s.startsWith "S" then
+    match ((s.drop 1).toString.splitOn "/").map optInt? with
+    | [some a, some b, some c] => some (.slice ⟨a, b, c⟩)
+    | _ => none
+  else none
+
 inductive St where
   | none
   | grid (g : Grid) (hex : Bool) (nag : Nat) (nc : NCache) (hc : HCache)
@@ -80,8 +95,17 @@ def gridLine (g : Grid) (hex : Bool) (nag : Nat) (nc : NCache) (hc : HCache) (ws
   let okA (a : Nat) : Bool := a < nag
   let clc (k : String) (rest : List String) : St × String :=
     match k.toNat?, (ints? rest).bind pairs with
-    | some k, some cs => if cs.length = k && cs.all (inGridB g) then (keep, sp (fmtIds (cellsContents g cs))) else bad
+    | some k, some cs =>
+      if cs.length = k then
+        match g.rawCells cs with
+        | .ok cells => (keep, sp (fmtIds (cellsContents g cells)))
+        | .error e => (keep, fmtErr e)
+      else bad
     | _, _ => bad
+  let showCells (r : Except Err (List Coord)) : St × String :=
+    match r with
+    | .ok cells => (keep, sp (" ".intercalate (cells.map fun c => fmtCell (g.content c))))
+    | .error e => (keep, fmtErr e)
   match ws with
   | ["place", a, x, y] =>
     match a.toNat?, x.toInt?, y.toInt? with
@@ -91,6 +115,11 @@ def gridLine (g : Grid) (hex : Bool) (nag : Nat) (nc : NCache) (hc : HCache) (ws
     match a.toNat? with
     | some a => if okA a then upd (g.remove a) else bad
     | _ => bad
+  | ["foreign", a, x, y] =>
+    match a.toNat?, x.toInt?, y.toInt? with
+    | some a, some x, some y =>
+      if okA a && inGridB g (x, y) && (g.pos a).isNone then (St.grid (g.foreignPos a (x, y)) hex nag nc hc, "ok") else bad
+    | _, _, _ => bad
   | ["move", a, x, y] =>
     match a.toNat?, x.toInt?, y.toInt? with
     | some a, some x, some y => if okA a then upd (g.move a (x, y)) else bad
@@ -114,7 +143,33 @@ def gridLine (g : Grid) (hex : Bool) (nag : Nat) (nc : NCache) (hc : HCache) (ws
   | ["exists"] => let r := g.existsEmpty; (St.grid r.1 hex nag nc hc, if r.2 then "ok 1" else "ok 0")
   | ["isempty", x, y] =>
     match x.toInt?, y.toInt? with
-    | some x, some y => if inGridB g (x, y) then (keep, if g.isCellEmpty (x, y) then "ok 1" else "ok 0") else bad
+    | some x, some y =>
+      match g.isCellEmptyRaw (x, y) with
+      | .ok b => (keep, if b then "ok 1" else "ok 0")
+      | .error e => (keep, fmtErr e)
+    | _, _ => bad
+  | ["geti", x] =>
+    match x.toInt? with
+    | some x => showCells (g.getColumn x)
+    | _ => bad
+  | "getl" :: k :: rest =>
+    match k.toNat?, (ints? rest).bind pairs with
+    | some k, some ps => if ps.length = k then showCells (g.getMany ps) else bad
+    | _, _ => bad
+  | ["gets", ix, iy] =>
+    match ix? ix, ix? iy with
+    | some ix, some iy => showCells (g.getItem2 ix iy)
+    | _, _ => bad
+  | ["tadj", x, y] =>
+    match x.toInt?, y.toInt? with
+    | some x, some y =>
+      match g.torusAdj (x, y) with
+      | .ok c => (keep, "ok " ++ fmtCoord c)
+      | .error e => (keep, fmtErr e)
+    | _, _ => bad
+  | ["oob", x, y] =>
+    match x.toInt?, y.toInt? with
+    | some x, some y => (keep, if g.oob (x, y) then "ok 1" else "ok 0")
     | _, _ => bad
   | ["mask"] => (keep, sp (fmtBits (g.allCells.map g.mask)))
   | ["agents"] => (keep, sp (fmtIds g.agentsList))
@@ -130,7 +185,9 @@ def gridLine (g : Grid) (hex : Bool) (nag : Nat) (nc : NCache) (hc : HCache) (ws
   | "clc" :: k :: rest => clc k rest
   | "iclc" :: k :: rest => clc k rest
   | [op, x, y, m, ic, r] =>
-    if hex then bad else
+    -- `get_neighborhood_mask` on a hex grid passes four arguments to the three-argument hex `get_neighborhood`: TypeError
+    if hex then (if op = "nmask" && (x.toInt?.isSome && y.toInt?.isSome && (bool? m).isSome && (bool? ic).isSome && r.toNat?.isSome)
+                 then (keep, "err Type") else bad) else
     match x.toInt?, y.toInt?, bool? m, bool? ic, r.toNat? with
     | some x, some y, some m, some ic, some r =>
       if op = "nbhd" || op = "inbhd" || op = "nbrs" || op = "inbrs" || op = "nmask" then
@@ -148,14 +205,38 @@ def gridLine (g : Grid) (hex : Bool) (nag : Nat) (nc : NCache) (hc : HCache) (ws
     if !hex then bad else
     match x.toInt?, y.toInt?, bool? ic, r.toNat? with
     | some x, some y, some ic, some r =>
-      if !inGridB g (x, y) then bad
-      else if op = "hnbhd" || op = "ihnbhd" || op = "hnbrs" || op = "ihnbrs" then
+      if op = "hnbhd" || op = "ihnbhd" || op = "hnbrs" || op = "ihnbrs" then
         let (hc', cells) := getHexNbhd g.dim hc { pos := (x, y), ic := ic, r := r }
         let st := St.grid g hex nag nc hc'
-        if op = "hnbhd" || op = "ihnbhd" then (st, sp (fmtCoords cells)) else (st, sp (fmtIds (cellsContents g cells)))
+        if op = "hnbhd" || op = "ihnbhd" then (st, sp (fmtCoords cells))
+        else match hexNeighbors g cells with
+          | .ok l => (st, sp (fmtIds l))
+          | .error e => (st, fmtErr e)
       else bad
     | _, _, _, _ => bad
   | _ => bad
+
+def netQuery (t : Net) (nag : Nat) (op : String) (args : List String) : St × String :=
+  let keep := St.net t nag
+  let bad : St × String := (keep, "bad-op")
+  match op, args with
+  | "nisempty", [v] =>
+    match v.toNat? with
+    | some v =>
+      match t.isCellEmpty v with
+      | .ok b => (keep, if b then "ok 1" else "ok 0")
+      | .error e => (keep, fmtErr e)
+    | _ => bad
+  | op, [v, ic, r] =>
+    match v.toNat?, bool? ic, r.toNat? with
+    | some v, some ic, some r =>
+      if op = "nnbhd" || op = "nnbrs" then
+        match t.nbhdChecked v ic r with
+        | .error e => (keep, fmtErr e)
+        | .ok l => if op = "nnbhd" then (keep, sp (fmtIds l)) else (keep, sp (fmtIds (t.cellsContents l)))
+      else bad
+    | _, _, _ => bad
+  | _, _ => bad
 
 def netLine (t : Net) (nag : Nat) (ws : List String) : St × String :=
   let keep := St.net t nag
@@ -172,25 +253,21 @@ def netLine (t : Net) (nag : Nat) (ws : List String) : St × String :=
     | _ => bad
   | ["nmove", a, v] =>
     match a.toNat?, v.toNat? with
-    | some a, some v => if a < nag && v < t.n then upd (t.move a v) else bad
+    | some a, some v => if a < nag then upd (t.move a v) else bad
     | _, _ => bad
-  | "nclc" :: k :: rest =>
-    match k.toNat?, nats? rest with
-    | some k, some vs => if vs.length = k && vs.all (· < t.n) then (keep, sp (fmtIds (t.cellsContents vs))) else bad
-    | _, _ => bad
-  | [op, v, ic, r] =>
-    match v.toNat?, bool? ic, r.toNat? with
-    | some v, some ic, some r =>
-      if v ≥ t.n then bad
-      else if op = "nnbhd" then (keep, sp (fmtIds (t.nbhd v ic r)))
-      else if op = "nnbrs" then (keep, sp (fmtIds (t.cellsContents (t.nbhd v ic r))))
-      else bad
-    | _, _, _ => bad
-  | ["nagents"] => (keep, sp (fmtIds ((List.range t.n).flatMap t.content)))
-  | ["nisempty", v] =>
-    match v.toNat? with
-    | some v => if v < t.n then (keep, if (t.content v).isEmpty then "ok 1" else "ok 0") else bad
-    | _ => bad
+  | op :: k :: rest =>
+    if op = "nclc" || op = "niclc" then
+      match k.toNat?, nats? rest with
+      | some k, some vs =>
+        if vs.length = k then
+          match t.getCellListContents vs with
+          | .ok l => (keep, sp (fmtIds l))
+          | .error e => (keep, fmtErr e)
+        else bad
+      | _, _ => bad
+    else netQuery t nag op (k :: rest)
+  | ["nallc"] => (keep, sp (fmtIds t.getAllCellContents))
+  | ["nagents"] => (keep, sp (fmtIds t.agentsList))
   | ["ndump"] =>
     let ps := (List.range nag).map fun a => match t.pos a with | some v => toString v | none => "-"
     let cs := (List.range t.n).filterMap fun v => if (t.content v).isEmpty then none else some (toString v ++ "=" ++ fmtCell (t.content v))
